@@ -432,6 +432,9 @@ def checkApiFlags (o : WireObs) : Verdict :=
 
 def P_C03 (cfg : WireCfg) (fs : List Frame) (o : WireObs) : Verdict :=
   if o.panicked then some "panic" else
+  -- what the service writes in varlink mode is a sequence of complete reply messages
+  if o.rawOut && (match o.status with | .upgraded _ => false | _ => true) then
+    some "reply-bytes-are-not-a-sequence-of-complete-messages" else
   match ((checkCalls cfg fs o).orElse (fun _ => checkAllReached cfg fs o)).orElse (fun _ => checkApiFlags o) with
   | some r => some r
   | none =>
